@@ -658,7 +658,12 @@ class _Option:
             raise
 
     def _parse_bool(self, value: str) -> bool:
-        return value.lower() not in ("false", "0", "f")
+        lowered = value.lower()
+        if lowered in ("true", "1", "t", "yes", "y", "on"):
+            return True
+        if lowered in ("false", "0", "f", "no", "n", "off"):
+            return False
+        raise Error("Option %r: invalid boolean value %r" % (self.name, value))
 
     def _parse_string(self, value: str) -> str:
         return _unicode(value)
